@@ -403,6 +403,7 @@ def run_pair(start_db: str, rows: list[int], policy: Policy, *, events: bool = F
     if drain:
         run = delivery_run({}, world=w, resubmit=False, max_steps=max_steps)
         run.race_start_seq = race_start_seq  # type: ignore[attr-defined]
+        run.since = race_start_seq  # type: ignore[attr-defined]  # rows of the pre-cut history belong to no commit of this world
     else:
         from .runs import Run
 
